@@ -7,6 +7,10 @@ use crate::Family;
 pub fn families_for(prop: &str) -> Vec<Family> {
     match prop {
         "MIX" => vec![Family { name: "mix", cfg: mix_cfg, run: mix_run }],
+        "C03" => vec![
+            Family { name: "c03_exh", cfg: c03_exh_cfg, run: c03_exh_run },
+            Family { name: "c03_rand", cfg: c03_rand_cfg, run: c03_rand_run },
+        ],
         _ => vec![],
     }
 }
@@ -123,4 +127,154 @@ fn mix_run(case: &mut Case, rng: &mut Rng) {
         case.ctl("step");
     }
     case.ctl("links");
+}
+
+// ---------------------------------------------------------------------------------------------
+// C03: explicit partitions
+
+const C03_CALLS: [&str; 6] = ["partition h0 h1", "partition1 h0 h1", "partition1 h1 h0", "repair h0 h1", "repair1 h0 h1", "repair1 h1 h0"];
+
+fn c03_exh_cfg(rng: &mut Rng) -> CaseCfg {
+    let lat = *rng.pick(&[0u64, 2, 3]);
+    CaseCfg {
+        tick_ms: 1,
+        hosts: 2,
+        minlat_ms: lat,
+        maxlat_ms: lat + *rng.pick(&[0u64, 0, 2]),
+        fail: *rng.pick(&[0.0, 0.0, 0.3, 0.7, 1.0]),
+        repair: *rng.pick(&[0.0, 0.3, 1.0]),
+        rng_seed: rng.next(),
+        desc: rng.chance(1, 2),
+        v6: rng.chance(1, 5),
+        ..CaseCfg::default()
+    }
+}
+
+struct Traffic {
+    next_id: u32,
+}
+
+impl Traffic {
+    fn burst(&mut self, case: &mut Case, rng: &mut Rng, max_per_host: u64) {
+        let hosts = case.cfg.hosts;
+        for h in 0..hosts {
+            if !case.running[h] {
+                continue;
+            }
+            for _ in 0..rng.below(max_per_host + 1) {
+                let peer = (h + 1 + rng.below(hosts as u64 - 1) as usize) % hosts;
+                let id = self.next_id;
+                self.next_id += 1;
+                let p = hex(&[(id >> 8) as u8, id as u8, 0xEE]);
+                case.ctl(&format!("q h{h} udp_send s0 h{peer}:9000 {p}"));
+            }
+        }
+    }
+    fn recv_all(&mut self, case: &mut Case, per_host: usize) {
+        for h in 0..case.cfg.hosts {
+            if !case.running[h] {
+                continue;
+            }
+            for _ in 0..per_host {
+                case.ctl(&format!("q h{h} udp_tryrecv s0 4"));
+            }
+        }
+    }
+}
+
+fn c03_drain(case: &mut Case, tr: &mut Traffic) {
+    let steps = case.cfg.maxlat_ms / case.cfg.tick_ms + 3;
+    for _ in 0..steps {
+        tr.recv_all(case, 6);
+        case.ctl("step");
+    }
+    case.ctl("mark drained");
+}
+
+/// Every sequence of at most three partition / repair calls on one pair, with traffic in both
+/// directions before, between and after the calls (index = case.idx, 258 sequences).
+fn c03_exh_run(case: &mut Case, rng: &mut Rng) {
+    let mut seq: Vec<usize> = Vec::new();
+    let mut k = case.idx % 258;
+    if k < 6 {
+        seq.push(k);
+    } else if k < 42 {
+        k -= 6;
+        seq.push(k / 6);
+        seq.push(k % 6);
+    } else {
+        k -= 42;
+        seq.push(k / 36);
+        seq.push((k / 6) % 6);
+        seq.push(k % 6);
+    }
+    let mut tr = Traffic { next_id: 1 };
+    for h in 0..2 {
+        case.ctl(&format!("q h{h} udp_bind s0 any:9000"));
+    }
+    case.ctl("step");
+    for c in seq {
+        tr.burst(case, rng, 2);
+        case.ctl("step");
+        if rng.chance(1, 2) {
+            tr.burst(case, rng, 1);
+            tr.recv_all(case, 2);
+            case.ctl("step");
+        }
+        case.ctl("links");
+        case.ctl(C03_CALLS[c]);
+        tr.burst(case, rng, 2);
+        tr.recv_all(case, 2);
+        case.ctl("step");
+    }
+    tr.burst(case, rng, 2);
+    c03_drain(case, &mut tr);
+}
+
+fn c03_rand_cfg(rng: &mut Rng) -> CaseCfg {
+    let min = *rng.pick(&[0u64, 0, 1, 4]);
+    CaseCfg {
+        tick_ms: *rng.pick(&[1u64, 2, 5]),
+        hosts: rng.range(2, 4) as usize,
+        minlat_ms: min,
+        maxlat_ms: min + *rng.pick(&[0u64, 3, 10]),
+        fail: *rng.pick(&[0.0, 0.0, 0.0, 0.3, 0.7, 1.0]),
+        repair: *rng.pick(&[0.0, 0.3, 0.7, 1.0]),
+        rng_seed: rng.next(),
+        desc: rng.chance(1, 3),
+        v6: rng.chance(1, 5),
+        ..CaseCfg::default()
+    }
+}
+
+/// Long random interleavings: calls from the Sim handle and from host code, several hosts.
+fn c03_rand_run(case: &mut Case, rng: &mut Rng) {
+    let hosts = case.cfg.hosts;
+    let mut tr = Traffic { next_id: 1 };
+    for h in 0..hosts {
+        case.ctl(&format!("q h{h} udp_bind s0 any:9000"));
+    }
+    case.ctl("step");
+    let rounds = rng.range(6, 30);
+    for _ in 0..rounds {
+        tr.burst(case, rng, 2);
+        if rng.chance(1, 3) {
+            let a = rng.below(hosts as u64) as usize;
+            let b = (a + 1 + rng.below(hosts as u64 - 1) as usize) % hosts;
+            let call = *rng.pick(&["partition", "partition1", "repair", "repair1"]);
+            if rng.chance(1, 3) {
+                // from host code, in the middle of that host's sends
+                let h = rng.below(hosts as u64) as usize;
+                case.ctl(&format!("q h{h} net_{call} h{a} h{b}"));
+                tr.burst(case, rng, 1);
+            } else {
+                case.ctl("links");
+                case.ctl(&format!("{call} h{a} h{b}"));
+                tr.burst(case, rng, 1);
+            }
+        }
+        tr.recv_all(case, 3);
+        case.ctl("step");
+    }
+    c03_drain(case, &mut tr);
 }
